@@ -44,6 +44,7 @@ def removed (s : Schema2) (t : Nat) (L : Lib2) : Lib2 :=
   { L with
     pe := (ids L.pl).foldl (EngineModel.Db.V2.rmTrackIn (t : Int)) L.pe
     log := if hasChangeLog s then (L.logNullify t).log else L.log
+    prep := L.prep.filter fun r => r.track != some t
     tdb := { L.tdb with rows := L.tdb.rows.filter fun e => !(e.id == t) } }
 
 theorem removeTrack_eq (s : Schema2) (t : Nat) (L : Lib2) :
@@ -53,7 +54,7 @@ theorem removeTrack_eq (s : Schema2) (t : Nat) (L : Lib2) :
   unfold removeTrack M2.transaction
   simp only [bind, M2.bind, M2.modify]
   cases hc : hasChangeLog s
-  · simp only [Bool.false_eq_true, if_false, pure, M2.pure, M2.track, callRemove_eq]
+  · simp only [Bool.false_eq_true, if_false, pure, M2.pure, M2.bind, M2.modify, M2.track, callRemove_eq]
     by_cases hz : (L.tdb.rows.filter fun e => e.id == t).length = 0
     · simp only [hz, if_true]
     · simp only [hz, if_false, removed, hc, Bool.false_eq_true]
@@ -163,9 +164,10 @@ structure LibCore (s : Schema2) (L : Lib2) : Prop where
   logNone : hasChangeLog s = false → L.log = []
   logIds : (L.log.map (·.id)).Nodup ∧ ∀ r ∈ L.log, 1 ≤ r.id ∧ r.id ≤ L.logSeq
   logLive : ∀ r ∈ L.log, ∀ t, r.track = some t → t ∈ L.tdb.rows.map (·.id)
-  /-- the default album art row exists and every Track.albumArtId references an AlbumArt row; PreparelistEntity is empty -/
+  /-- the default album art row exists and every Track.albumArtId references an AlbumArt row -/
   art : 1 ∈ L.art ∧ ∀ t ∈ L.tdb.rows, t.row.albumArtId.toNat ∈ L.art
-  prep : L.prep = []
+  /-- every PreparelistEntity row (Engine's prepare list; the library only ever deletes from it) references a live track or NULL -/
+  prep : ∀ r ∈ L.prep, ∀ t, r.track = some t → t ∈ L.tdb.rows.map (·.id)
   ver : L.ver = s.version
 
 structure LibInv (s : Schema2) (L : Lib2) : Prop extends LibCore s L where
@@ -180,7 +182,7 @@ theorem libInv_empty (s : Schema2) (uuid : Bytes) : LibInv s (Lib2.empty s uuid)
   logIds := ⟨List.nodup_nil, fun r hr => by cases hr⟩
   logLive := fun r hr => by cases hr
   art := ⟨by simp [Lib2.empty], fun t ht => by cases ht⟩
-  prep := rfl
+  prep := fun r hr => by cases hr
   ver := rfl
 
 /-! ### ChangeLog bookkeeping -/
@@ -254,7 +256,7 @@ theorem libCore_crateCall {s : Schema2} {L : Lib2} (h : LibCore s L) (op : COp) 
     logIds := by rw [e2, e3]; exact h.logIds
     logLive := by rw [e2, e1]; exact h.logLive
     art := by rw [e4, e1]; exact h.art
-    prep := by rw [e5]; exact h.prep
+    prep := by rw [e5, e1]; exact h.prep
     ver := by rw [e6]; exact h.ver }
 
 theorem libInv_crateCall {s : Schema2} {L : Lib2} (h : LibInv s L) (op : COp) (ha : crateApi op = true) :
@@ -290,7 +292,7 @@ theorem libCore_track_ok {s : Schema2} {L : Lib2} (h : LibCore s L) (tdb' : TDb)
     logIds := h.logIds
     logLive := fun r hr t ht => hids t (h.logLive r hr t ht)
     art := ⟨h.art.1, hart⟩
-    prep := h.prep
+    prep := fun r hr t ht => hids t (h.prep r hr t ht)
     ver := h.ver }
   cases hc : hasChangeLog s
   · simpa using base
@@ -310,7 +312,7 @@ theorem libCore_track_ok {s : Schema2} {L : Lib2} (h : LibCore s L) (tdb' : TDb)
         · exact base.logLive r hr t ht
         · have := h4 r hr; rw [this] at ht; cases ht; exact hsub
       art := by rw [f, a]; exact base.art
-      prep := by rw [g]; exact base.prep
+      prep := by rw [g, a]; exact base.prep
       ver := by rw [hh]; exact base.ver }
 
 theorem own_track_ok {s : Schema2} {L : Lib2} (h : LibInv s L) (tdb' : TDb) (subject n : Nat) (hview : ViewStep L tdb') :
@@ -461,7 +463,18 @@ theorem libCore_removeTrack {s : Schema2} {L : Lib2} (h : LibCore s L) (t : Nat)
           have : x.id ≠ t := by rw [hxid]; intro e; apply hne; rw [ht', e]
           simpa using this
       art := ⟨h.art.1, fun x hx => h.art.2 x (hsub x hx)⟩
-      prep := h.prep
+      prep := by
+        intro r hr t' ht'
+        simp only [removed] at hr
+        obtain ⟨hr1, hr2⟩ := List.mem_filter.mp hr
+        obtain ⟨x, hx, hxid⟩ := List.mem_map.mp (h.prep r hr1 t' ht')
+        refine List.mem_map.mpr ⟨x, ?_, hxid⟩
+        simp only [removed]
+        refine List.mem_filter.mpr ⟨hx, ?_⟩
+        have : x.id ≠ t := by
+          rw [hxid]; intro e
+          rw [ht', e] at hr2; simp at hr2
+        simpa using this
       ver := h.ver }
 
 theorem libInv_removeTrack {s : Schema2} {L : Lib2} (h : LibInv s L) (t : Nat) : LibInv s (removeTrack s t L).1 := by
